@@ -76,6 +76,14 @@ def Fields.tagOf (r : Fields) : OKind → Option Nat
 /-- The options of one kind, in call order. -/
 def ofKind (k : OKind) (opts : List ROpt) : List ROpt := opts.filter fun o => o.kind = k
 
+/-- What the last option of a kind assigns, read off the list from its END (`none`: no such option). -/
+def lastFallback (opts : List ROpt) : Option (Option (Nat × Factory)) :=
+  opts.reverse.findSome? fun | .fallback t f => some (f.map fun g => (t, g)) | _ => none
+def lastFactory (opts : List ROpt) : Option (Option (Nat × Factory)) :=
+  opts.reverse.findSome? fun | .factory t f => some (f.map fun g => (t, g)) | _ => none
+def lastOnChange (opts : List ROpt) : Option Nat :=
+  opts.reverse.findSome? fun | .onChange t => some t | _ => none
+
 /-! ## The generated `Add` override (`cmd/protoc-gen-router/router.go.gotxt`)
 
 `func (r *XxxRouter) Add(name, client) any { if !r.HoldsType(client) { panic(...) }; return r.Router.Add(name, client) }`:
